@@ -31,6 +31,7 @@ type Program struct {
 
 	decls    map[*types.Func]*FuncSrc
 	fnCache  map[*ast.BlockStmt]*Fn
+	wrapMemo map[wrapKey]bool
 	callIdx  map[types.Object][]CallSite // callee -> call sites (static)
 	storeIdx map[types.Object][]StoreSite
 	readIdx  map[types.Object][]StoreSite
